@@ -348,3 +348,20 @@ Proof.
   destruct (binv_run _ sinit [] [] spk binv_init Hrk) as (_ & Hc). rewrite hist_map_fst in Hc. simpl in Hc.
   rewrite <- (r_now _ _ Rk), Hc. exact C.
 Qed.
+
+(* ---- the timer interface: cancelling never blocks and never waits for an event that has already started ----
+   In the model [cancel] is a total function on the timer list: it changes at most the state of the named timer, and only
+   Sched -> Cancelled; a timer that has FIRED (its closure is waiting for the PIT lock) stays Fired: cancel neither runs
+   nor waits for the closure. onData / onNack therefore always complete while fired timers are outstanding (every model
+   step is a total function; [model_accepted] covers the histories EFire t; EData ..; ERun t). An implementation of
+   ndn.Timer whose cancel function waits for a started event violates this obligation: the engine calls cancel under the
+   PIT lock and the event function begins by taking that lock. *)
+Theorem cancel_nonblocking_spec : forall es ts j t, nth_error ts j = Some t ->
+  exists t', nth_error (cancel_all ts es) j = Some t' /\ tnode t' = tnode t /\ tfire t' = tfire t /\
+             (tst t = TFired -> tst t' = TFired) /\ (tst t' <> tst t -> tst t = TSched /\ tst t' = TCancelled).
+Proof.
+  intros es ts j t H. destruct (cancel_all_nth es ts j t H) as (t' & A & B & C & D & _).
+  exists t'. split; [exact A|]. split; [exact B|]. split; [exact C|]. split.
+  - intros Hf. destruct D as [D|(D1 & _)]; congruence.
+  - intros Hne. destruct D as [D|(D1 & D2 & _)]; [congruence|auto].
+Qed.
